@@ -2,7 +2,9 @@
 
 Identity across model and implementation: tags carry the label `t<id>`; every string carries a text that is a
 '.'-joined sequence of unique numbers (`s<text>`), so library-created strings (wrapped plain `str`, merged
-strings of smooth(), the `.string=` string) are identified by their text and no id() ever crosses the protocol."""
+strings of smooth(), the `.string=` string) are identified by their text and no id() ever crosses the protocol.
+The nodes of a copy (`cp:X:N`) are labelled `t<N+k>` / `s<N+k>` by their place k in the clone's document order on both sides (a copied
+string has the text of its original, so its text cannot identify it)."""
 from __future__ import annotations
 
 import warnings
@@ -71,6 +73,7 @@ class World:
         self.lab: dict[int, str] = {}          # id(element) -> label (all tags; initial strings)
         self.keep: list = []                   # strong refs
         self.next_plain = 1000
+        self.init_copy_state()
         for i, k in enumerate(kinds):
             if k == "t":
                 o = self.base.new_tag(pick(i, ["x", "x", "y"]) if self.twin else f"t{i}")
@@ -90,6 +93,15 @@ class World:
             else:
                 o = Comment(pick(i, ["c."]) if self.twin else f"{i}.")
             self.register(o, i)
+
+    def init_copy_state(self):
+        """bookkeeping of the `cp` op (copies): labels of BeautifulSoup clones, labels of all clone nodes, id()s of copied plain strings,
+        the verdict of the direct copy oracle on the last `cp`"""
+        self.soup_labels: set[str] = set()
+        self.copy_labels: set[str] = set()
+        self.copied_ids: set[int] = set()
+        self.copy_oracle_msg: Optional[str] = None
+        self.n_cp = 0
 
     # -- labels -----------------------------------------------------------------------------
     def register(self, o, i=None):
@@ -132,6 +144,10 @@ class World:
                     if id(c) not in seen:
                         seen.add(id(c))
                         self.keep.append(c)
+                        # histories with copies: a label is never to pass silently from one live object to another (gen_op keeps
+                        # smooth() away from runs whose merged text is already some live string's label)
+                        if getattr(self, "n_cp", 0) and self.label(c) in self.objs and self.objs[self.label(c)] is not c:
+                            raise AssertionError("label collision: " + self.label(c))
                         self.objs[self.label(c)] = c
                     if isinstance(c, Tag):
                         stack.extend(c.contents)
@@ -166,10 +182,24 @@ class World:
         k = f[0]
         args = lambda s: [self.arg(a) for a in s.split(",")] if s != "-" else []
         pre_dead = None
+        cp = None
+        if k == "cp":
+            self.copy_oracle_msg = None
         try:
             with warnings.catch_warnings():
                 warnings.simplefilter("ignore")
-                if k == "ap":
+                if k == "cp":
+                    # a copy of the element, by one of the three spellings (a function of the op text, so replays repeat it); the
+                    # direct oracle of the copy clause of C01/C02 runs below, outside the `try`
+                    import copy
+                    src = self.objs[f[1]]
+                    form = zlib.crc32(op.encode()) % 3
+                    self.call_forms["cp%d" % form] = self.call_forms.get("cp%d" % form, 0) + 1
+                    snap = link_snapshot(self)
+                    src_sub = subtree(src)
+                    clone = copy.copy(src) if form == 0 else copy.deepcopy(src) if form == 1 else src.__copy__()
+                    cp = (src, src_sub, clone, snap)
+                elif k == "ap":
                     self.objs[f[1]].append(self.arg(f[2]))
                 elif k == "in":
                     self.objs[f[1]].insert(int(f[2]), *args(f[3]))
@@ -250,8 +280,36 @@ class World:
             raise
         except Exception as e:  # AttributeError, IndexError, ...
             return "err:crash"
+        if cp is not None:
+            self.adopt_copy(int(f[2]), *cp)
         self.rescan()
         return "ok"
+
+    def adopt_copy(self, n0: int, src, src_sub, clone, snap):
+        """after `clone = copy(src)`: run the direct copy oracle, then label the k-th node of the clone (document order) `t<n0+k>` /
+        `s<n0+k>` - the same labels the model's driver gives them"""
+        from bs4.element import Tag, NavigableString, PreformattedString
+        self.n_cp = getattr(self, "n_cp", 0) + 1
+        self.copy_oracle_msg = copy_oracle(self, src, src_sub, clone, snap)
+        nodes, seen = [], set()
+        for node in subtree(clone):
+            if id(node) not in seen:      # (a clone that lists a node twice was reported by the oracle; label it once)
+                seen.add(id(node))
+                nodes.append(node)
+        known = {id(o) for o in self.keep}
+        for k2, node in enumerate(nodes):
+            if id(node) in known:         # (reported by the oracle: the "clone" contains a pre-existing object; it keeps its label)
+                continue
+            l = ("t" if isinstance(node, Tag) else "s") + str(n0 + k2)
+            self.lab[id(node)] = l
+            self.keep.append(node)
+            self.objs[l] = node
+            self.copy_labels.add(l)
+            if self.is_soup(node):
+                self.soup_labels.add(l)
+            if isinstance(node, NavigableString) and not isinstance(node, PreformattedString):
+                self.copied_ids.add(id(node))
+        self.next_plain = max(self.next_plain, n0 + len(nodes) - 1)
 
     # -- observation -------------------------------------------------------------------------
     def live(self):
@@ -465,6 +523,103 @@ def oracle_c01(w: World) -> Optional[str]:
     return None
 
 
+LINKS = ("parent", "previous_sibling", "next_sibling", "previous_element", "next_element")
+
+
+def link_snapshot(w: World) -> dict:
+    """the five pointers and the children list, by identity, of every element the world has ever seen and that was not destroyed"""
+    out = {}
+    for o in w.keep:
+        if getattr(o, "_decomposed", False):
+            continue
+        kids = getattr(o, "contents", None)
+        out[id(o)] = (o, tuple(id(getattr(o, a)) for a in LINKS), None if kids is None else tuple(id(c) for c in kids))
+    return out
+
+
+def copy_oracle(w: World, src, src_sub, clone, snap) -> Optional[str]:
+    """The copy clause of C01 ("every fragment that was ... copied is a self-contained tree with no parent, no siblings and no links
+    into the tree it came from") and of C02 (nothing else moves, no element lost or duplicated) evaluated directly on the real objects
+    right after `clone = copy(src)`. `snap` = link_snapshot before the call, `src_sub` = the source subtree before the call."""
+    from bs4.element import Tag
+    # (1) the source and everything else is untouched
+    for o, links, kids in snap.values():
+        if getattr(o, "_decomposed", False):
+            return f"the copy destroyed {w.label(o)}"
+        now = tuple(id(getattr(o, a)) for a in LINKS)
+        for a, x, y in zip(LINKS, links, now):
+            if x != y:
+                return f"copying {w.label(src)} changed {w.label(o)}.{a} (now {w.label(getattr(o, a))})"
+        nk = getattr(o, "contents", None)
+        if (None if nk is None else tuple(id(c) for c in nk)) != kids:
+            return f"copying {w.label(src)} changed the children of {w.label(o)}"
+    # (2) the clone is detached, consists of new objects only and has no link to anything outside itself
+    if clone is None or type(clone) is not type(src):
+        return f"the copy of {w.label(src)} ({type(src).__name__}) is a {type(clone).__name__}"
+    for a in LINKS[:4]:
+        if getattr(clone, a) is not None:
+            return f"the copy of {w.label(src)} has a {a}: {w.label(getattr(clone, a))}"
+    sub = subtree(clone)
+    ids = [id(x) for x in sub]
+    if len(set(ids)) != len(ids):
+        return f"an element occurs twice in the copy of {w.label(src)}"
+    old = {id(o) for o in w.keep}
+    for k, x in enumerate(sub):
+        if id(x) in old:
+            return f"node {k} of the copy of {w.label(src)} is not a new object: it is {w.label(x)}"
+    if sub[-1].next_element is not None:
+        return f"the last element of the copy of {w.label(src)} has a next_element: {w.label(sub[-1].next_element)}"
+    inside = set(ids)
+    for k, x in enumerate(sub):
+        for a in LINKS:
+            y = getattr(x, a)
+            if y is not None and id(y) not in inside:
+                return f"node {k} of the copy of {w.label(src)} has a link out of the copy: {a} is {w.label(y)}"
+    # (3) the clone is isomorphic to the source
+    if len(sub) != len(src_sub):
+        return f"the copy of {w.label(src)} has {len(sub)} elements, the original {len(src_sub)}"
+    si = {id(x): k for k, x in enumerate(src_sub)}
+    ci = {id(x): k for k, x in enumerate(sub)}
+    for k, (x, y) in enumerate(zip(src_sub, sub)):
+        if type(x) is not type(y):
+            return f"node {k} of the copy of {w.label(src)} is a {type(y).__name__}, the original a {type(x).__name__}"
+        if isinstance(x, Tag):
+            if x.name != y.name:
+                return f"node {k} of the copy of {w.label(src)} is named {y.name!r}, the original {x.name!r}"
+            if [si[id(c)] for c in x.contents] != [ci[id(c)] for c in y.contents]:
+                return f"the children of node {k} of the copy of {w.label(src)} do not correspond to those of the original"
+        elif str(x) != str(y):
+            return f"node {k} of the copy of {w.label(src)} has text {str(y)!r}, the original {str(x)!r}"
+    return None
+
+
+def smooth_is_unambiguous(w: World, t) -> bool:
+    """histories with copies: a string smooth() creates is identified by its text on both sides, so (a) no run that would be merged
+    may hold a copied string (whose label is not its text) and (b) the merged text must not be the label of another live string"""
+    from bs4.element import Tag, NavigableString, PreformattedString
+    made = set()
+    for q in subtree(t):
+        if not isinstance(q, Tag):
+            continue
+        runs, run = [], []
+        for c in list(q.contents) + [None]:
+            if isinstance(c, NavigableString) and not isinstance(c, PreformattedString):
+                run.append(c)
+            else:
+                if len(run) >= 2:
+                    runs.append(run)
+                run = []
+        for run in runs:
+            if any(id(r) in w.copied_ids for r in run):
+                return False
+            text = "".join(str(r) for r in run)
+            l = "s" + (text[:-1] if text.endswith(".") else text + "?")
+            if l in w.objs or l in made:
+                return False
+            made.add(l)
+    return True
+
+
 def subtree(n):
     from bs4.element import Tag
     out = [n]
@@ -611,6 +766,14 @@ class Spec:
                         out.append(c)
                 flush()
                 self.kids[t] = out
+        elif k == "cp":
+            # a copy: new elements for the pre-order of the subtree, nested the same way, beneath nothing; nothing else changes
+            sub = self.subtree(f[1])
+            m = {e: ("t" if self.kind[e] in "tr" else "s") + str(int(f[2]) + i) for i, e in enumerate(sub)}
+            for e in sub:
+                self.kids[m[e]] = [m[c] for c in self.kids[e]]
+                self.parent[m[e]] = None if e == f[1] else m[self.parent[e]]
+                self.kind[m[e]] = self.kind[e]
         elif k in ("ss", "se"):
             knd = ("c" if f[2] == "c" else "s") if k == "ss" else self.kind[f[2]]
             for e in list(self.kids[f[1]]):
@@ -678,6 +841,7 @@ def make_world(rng, parsed: bool, string_subclasses: bool = True):
     w.kinds = kinds
     w.base = BeautifulSoup("", "html.parser")
     w.objs, w.lab, w.keep, w.next_plain = {}, {}, [], 1000
+    w.init_copy_state()
     w.register(soup, 0)
     prefix = []
 
@@ -719,10 +883,45 @@ def ancestors_or_self(o):
     return out
 
 
-def gen_op(rng, w: World, stats, string_objects=True) -> Optional[str]:
-    """One random editing call within the quantifier of C01/C02, chosen by looking at the real forest."""
+COPY_MAX_NODES = 12      # the model's node ids stay below 1000 (the labels of clone nodes start at 1001)
+COPY_MAX_LIVE = 60
+
+
+def gen_copy(rng, w: World, stats, objs) -> Optional[str]:
+    """`cp:<label>:<N>`: a copy of a random live element - tag, string, comment, BeautifulSoup object, attached or a root, inside an
+    extracted fragment, a node of an earlier copy. N = the first of the numbers that label the clone's nodes (above everything in use)."""
+    from bs4.element import Tag, PreformattedString
+    if len(objs) > COPY_MAX_LIVE:
+        return None
+    cands = [(l, o, len(subtree(o))) for l, o in objs]
+    cands = [c for c in cands if c[2] <= COPY_MAX_NODES]
+    deep = [c for c in cands if c[2] >= 3]
+    if not cands:
+        return None
+    l, o, size = rng.choice(deep if deep and rng.random() < 0.5 else cands)
+    stats["cp:soup" if w.is_soup(o) else "cp:tag" if isinstance(o, Tag) else "cp:comment" if isinstance(o, PreformattedString) else "cp:string"] += 1
+    stats["cp:attached" if o.parent is not None else "cp:root"] += 1
+    if l in w.copy_labels:
+        stats["cp:of-copy"] += 1
+    if o.parent is not None and not w.is_soup(ancestors_or_self(o)[-1]):
+        stats["cp:inside-a-fragment"] += 1
+    if size >= 3:
+        stats["cp:subtree>=3"] += 1
+    stats["cp:nodes"] += size
+    n0 = w.next_plain + 1
+    w.next_plain += size
+    return f"cp:{l}:{n0}"
+
+
+def gen_op(rng, w: World, stats, string_objects=True, copies=0.0) -> Optional[str]:
+    """One random editing call within the quantifier of C01/C02, chosen by looking at the real forest. `copies` > 0: that share of
+    the steps copies an element instead (the random stream of a history without copies is what it always was)."""
     from bs4.element import Tag
     objs = w.live()
+    if copies > 0 and rng.random() < copies:
+        op = gen_copy(rng, w, stats, objs)
+        if op is not None:
+            return op
     tags = [(l, o) for l, o in objs if isinstance(o, Tag)]
     attached = [(l, o) for l, o in objs if o.parent is not None]
 
@@ -824,7 +1023,11 @@ def gen_op(rng, w: World, stats, string_objects=True) -> Optional[str]:
                 stats["de:empty-string-inside"] += 1
             return f"de:{l}"
         if k == "sm" and tags and not getattr(w, "twin", False) and not getattr(w, "se_used", False):
-            return f"sm:{rng.choice(tags)[0]}"
+            l, o = rng.choice(tags)
+            if copies > 0 and not smooth_is_unambiguous(w, o):
+                stats["sm:skipped-ambiguous-after-copy"] += 1
+                continue
+            return f"sm:{l}"
         if k == "se" and string_objects and tags and rng.random() < 0.5:
             from bs4.element import NavigableString
             l, o = rng.choice(tags)
